@@ -98,7 +98,7 @@ def marshalVarcharColumn : GoVal → MRes
   | .nil => .ok none
   | .str _ s => .ok (some s)
   | .bytes _ isNil b => if isNil then .ok none else .ok (some b)
-  | .ip b => if b = [] then .unmodelled else .ok (some b)   -- net.IP is a named []byte (reflect path)
+  | .ip b => if b = [] then .ok none else .ok (some b)       -- net.IP is a named []byte (reflect path)
   | _ => .err
 
 /-- float32(rv.Float()) on a named float32 goes through float64: a signalling NaN comes back quiet -/
@@ -150,7 +150,7 @@ def marshalScalar (t : CqlTy) (g : GoVal) : MRes :=
       | .int .int64 false v => .ok (some (encVints 0 0 v))
       | .dur ns => .ok (some (encVints 0 0 ns))
       | .cqldur m d n => .ok (some (encVints m d n))
-      | .str false _ => .unmodelled
+      | .str false s => if s = [] then .err else .unmodelled
       | .int .int64 true v => .ok (some (encBigInt v))          -- reflect.Int64 fallback: 8 raw bytes
       | _ => .err)
   | .uuid | .timeuuid => (match g with
@@ -165,7 +165,7 @@ def marshalScalar (t : CqlTy) (g : GoVal) : MRes :=
       | .ip b => (match ipTo4 b with
           | some v4 => .ok (some v4)
           | none => .ok (ipTo16 b))
-      | .str false _ => .unmodelled
+      | .str false s => if s = [] then .err else .unmodelled
       | _ => .err)
   | _ => .unmodelled
 
@@ -274,8 +274,9 @@ def marshal (p : Nat) (t : CqlTy) : GoVal → MRes
         | .nil => .err
         | .udtmap _ fnames vs => udtAssemble names (marshalNamed p names ts fnames vs) fnames
         | .udtstruct fnames vs => udtAssemble names (marshalNamed p names ts fnames vs) fnames
-        | .struct _ => .ok (if names = [] then none else some ((names.map (fun _ => appendBytes none)).flatten))
-        | .time _ _ | .big _ | .dec _ _ | .cqldur _ _ _ => .unmodelled   -- struct kinds
+        -- a struct without matching cql tags / field names: every UDT field is absent
+        | .struct _ | .time _ _ | .big _ | .dec _ _ | .cqldur _ _ _ =>
+          .ok (if names = [] then none else some ((names.map (fun _ => appendBytes none)).flatten))
         | _ => .err)
     | _ => marshalScalar t g
 
